@@ -5,9 +5,11 @@ package main
 import (
 	"bytes"
 	"fmt"
+	"io"
 	"math/big"
 	"os"
 	"runtime"
+	"strconv"
 	"strings"
 	"time"
 
@@ -74,6 +76,25 @@ func password(name string) []byte {
 
 // salts: "<len>:<pattern>" e.g. "0:zero", "8:count", "32:zero", "40:stream:s"
 func salt(name string) []byte {
+	if base, ok := strings.CutSuffix(name, "+newhash"); ok {
+		// what NewHash makes of salt1 = base when its random source is kit.NewStream(1): base | 32 stream bytes
+		b := salt(base)
+		if b == nil {
+			return nil
+		}
+		r := make([]byte, 32)
+		if _, err := io.ReadFull(kit.NewStream(1), r); err != nil {
+			panic(err)
+		}
+		return append(append([]byte{}, b...), r...)
+	}
+	if idx, ok := strings.CutPrefix(name, "zt:"); ok {
+		n, err := strconv.Atoi(idx)
+		if err != nil {
+			return nil
+		}
+		return ztSalt2(n)
+	}
 	i := strings.IndexByte(name, ':')
 	if i < 0 {
 		return nil
@@ -154,8 +175,13 @@ type wAnswer struct {
 	// with that server secret; or a raw value "raw:2", "raw:p-1", "raw:mid" (any number in
 	// (0, p) is a possible srp_B; small ones make g_b - k_v negative).
 	B string `json:"srp_b"`
-	// BForm: "padded" (256 bytes) or "minimal" (big-endian without leading zeros).
+	// BForm: "padded" (256 bytes), "minimal" (big-endian without leading zeros) or "overlong<k>" (the
+	// 256-byte form preceded by k more zero bytes: the same number in a longer big-endian string).
 	BForm string `json:"b_form"`
+	// Layout: "" = every byte argument is its own exact-size allocation; "packed" = password, salt1, salt2,
+	// srp_B, client secret and p are consecutive sub-slices of ONE array, in this order, each with the rest of the
+	// array as spare capacity (as when a caller cuts them out of one received buffer); "packed-rev" = reverse order.
+	Layout string `json:"layout,omitempty"`
 	// VPassword: the password the verifier was made from ("" = same as Password).
 	VPassword string `json:"verifier_password,omitempty"`
 }
@@ -201,25 +227,40 @@ func evalAnswer(w wAnswer) kit.Result {
 		bBytes = refexchange.Pad256(gb)
 	case "minimal":
 		bBytes = gb.Bytes()
+	case "overlong1":
+		bBytes = append(make([]byte, 1), refexchange.Pad256(gb)...)
+	case "overlong8":
+		bBytes = append(make([]byte, 8), refexchange.Pad256(gb)...)
 	default:
 		return kit.Result{Trivial: true, Outcome: "unknown-name"}
 	}
 
-	in := srp.Input{Salt1: append([]byte{}, s1...), Salt2: append([]byte{}, s2...), G: int(gr.G), P: refexchange.Pad256(gr.P)}
-	got, err := srp.NewSRP(kit.NewStream(1)).Hash(append([]byte{}, pw...), bBytes, append([]byte{}, a...), in)
+	args, ok := layout(w.Layout, pw, s1, s2, bBytes, a, refexchange.Pad256(gr.P))
+	if !ok {
+		return kit.Result{Trivial: true, Outcome: "unknown-name"}
+	}
+	in := srp.Input{Salt1: args[1], Salt2: args[2], G: int(gr.G), P: args[5]}
+	got, err := srp.NewSRP(kit.NewStream(1)).Hash(args[0], args[3], args[4], in)
+	sfx := ""
+	if strings.HasPrefix(w.BForm, "overlong") {
+		sfx += ":srp_B-overlong"
+	}
+	if w.Layout != "" {
+		sfx += ":shared-array"
+	}
 	if err != nil {
-		return kit.Bad("valid-input-refused", "Hash returned an error on a valid group and 0 < srp_B < p: %v", err)
+		return kit.Bad("valid-input-refused"+sfx, "Hash returned an error on a valid group and 0 < srp_B < p: %v", err)
 	}
 
 	wantA, wantM1 := refexchange.SRPClientAnswer(gr, pw, s1, s2, new(big.Int).SetBytes(a), gb)
 	if new(big.Int).SetBytes(got.A).Cmp(wantA) != 0 {
-		return kit.Bad("A-not-spec", "A = %x..., specification: g^a mod p = %x...", head(got.A), head(refexchange.Pad256(wantA)))
+		return kit.Bad("A-not-spec"+sfx, "A = %x..., specification: g^a mod p = %x...", head(got.A), head(refexchange.Pad256(wantA)))
 	}
 	if !bytes.Equal(got.M1, wantM1) {
-		return kit.Bad("M1-not-spec", "M1 = %x, specification: %x", got.M1, wantM1)
+		return kit.Bad("M1-not-spec"+sfx, "M1 = %x, specification: %x", got.M1, wantM1)
 	}
 	if !honest {
-		return kit.OKo("spec-answer:raw-B")
+		return kit.OKo("spec-answer:raw-B" + sfx)
 	}
 	accepted := refexchange.SRPVerify(gr, s1, s2, v, b, got.A, got.M1)
 	if accepted != samePassword {
@@ -229,9 +270,89 @@ func evalAnswer(w wAnswer) kit.Result {
 		return kit.Bad("verifier-rejects-right-password", "verifier rejected the answer computed from its own password")
 	}
 	if accepted {
-		return kit.OKo("spec-answer:verifier-accepts")
+		return kit.OKo("spec-answer:verifier-accepts" + sfx)
 	}
 	return kit.OKo("spec-answer:verifier-rejects-wrong-password")
+}
+
+// layout returns private copies of the byte arguments, arranged in memory as the layout says.
+func layout(kind string, parts ...[]byte) ([][]byte, bool) {
+	out := make([][]byte, len(parts))
+	switch kind {
+	case "":
+		for i, p := range parts {
+			out[i] = append(make([]byte, 0, len(p)), p...)
+		}
+	case "packed", "packed-rev":
+		total := 0
+		for _, p := range parts {
+			total += len(p)
+		}
+		arr := make([]byte, total)
+		off := 0
+		for k := range parts {
+			i := k
+			if kind == "packed-rev" {
+				i = len(parts) - 1 - k
+			}
+			copy(arr[off:], parts[i])
+			out[i] = arr[off : off+len(parts[i])]
+			off += len(parts[i])
+		}
+	default:
+		return nil, false
+	}
+	return out, true
+}
+
+// ---------------------------------------------------------------------------------------------
+// family new-hash: SRP.NewHash makes the password verifier v (and the new salt1) that the server
+// stores; Hash answers are later checked against it.
+
+type wNewHash struct {
+	Password string `json:"password"`
+	Salt1    string `json:"salt1"`
+	Salt2    string `json:"salt2"` // a salt name or "zt:<index>" (salt2 of the zero-top search)
+	Group    string `json:"group"`
+	Layout   string `json:"layout,omitempty"`
+	// ZeroTop: the case was selected because v (for salt1 | first 32 bytes of kit.NewStream(1)) has a zero top byte.
+	ZeroTop bool `json:"zero_top,omitempty"`
+}
+
+func evalNewHash(w wNewHash) kit.Result {
+	pw, s1, s2 := password(w.Password), salt(w.Salt1), salt(w.Salt2)
+	gr, ok := group(w.Group)
+	if pw == nil || s1 == nil || s2 == nil || !ok {
+		return kit.Result{Trivial: true, Outcome: "unknown-name"}
+	}
+	args, ok := layout(w.Layout, pw, s1, s2, refexchange.Pad256(gr.P))
+	if !ok {
+		return kit.Result{Trivial: true, Outcome: "unknown-name"}
+	}
+	hash, newSalt, err := srp.NewSRP(kit.NewStream(1)).NewHash(args[0], srp.Input{Salt1: args[1], Salt2: args[2], G: int(gr.G), P: args[3]})
+	if err != nil {
+		return kit.Bad("valid-input-refused:new-hash", "NewHash returned an error on a valid group: %v", err)
+	}
+	// "append 32 sufficiently random bytes to the salt1": which bytes is the implementation's business
+	if len(newSalt) != len(s1)+32 || !bytes.Equal(newSalt[:len(s1)], s1) {
+		return kit.Bad("new-salt-not-spec", "new salt1 has %d bytes (old: %d) / does not start with the old salt1", len(newSalt), len(s1))
+	}
+	v := refexchange.SRPVerifierValue(gr, pw, newSalt, s2)
+	tag := ""
+	if w.ZeroTop {
+		if bytes.Equal(newSalt, salt(w.Salt1+"+newhash")) && !topZero(v, 256, 1) {
+			ztVacuous.Add(1)
+			fmt.Fprintf(os.Stderr, "C15: INFRASTRUCTURE: new-hash witness %+v: v has %d bits\n", w, v.BitLen())
+			return kit.Result{Trivial: true, Outcome: "vacuous-witness"}
+		}
+		if topZero(v, 256, 1) {
+			tag = ":v-top-zero"
+		}
+	}
+	if !bytes.Equal(hash, refexchange.Pad256(v)) {
+		return kit.Bad("new-hash-not-spec"+tag, "new_password_hash has %d bytes %x..., specification: v = g^x mod p for the returned salt as 256 bytes %x...", len(hash), head(hash), head(refexchange.Pad256(v)))
+	}
+	return kit.OKo("new-hash:v-of-returned-salt" + tag)
 }
 
 func head(b []byte) []byte {
@@ -333,6 +454,7 @@ func main() {
 		// or huge moduli and can allocate without bound; the worker's address-space limit turns that
 		// into a "crash" verdict for the witness instead of taking the machine down.
 		zero := kit.NewFamily(c, "zero-top", evalZero)
+		newHash := kit.NewFamily(c, "new-hash", evalNewHash)
 		invalid := kit.NewIsolatedFamily(c, "invalid-group", runtime.NumCPU(), 1536, evalInvalid)
 		if c.Replaying() {
 			return
@@ -378,6 +500,11 @@ func main() {
 			"password itself) x secrets {stream256} x groups %v x salts %v with honest srp_B. Oracle: A equals g^a mod p as a number and M1 equals "+
 			"byte-for-byte the value of a reference client written from the SRP page; for honest srp_B a reference SRP-6a verifier holding v, b "+
 			"accepts (A, M1) iff the tried password equals the verifier's password. "+
+			"Also, for password utf8 x these salts x these groups x a 32-byte secret: srp_B given as its 256-byte form preceded by 1 / 8 zero bytes (the same number), and all byte arguments "+
+			"(password, salt1, salt2, srp_B, secret, p) given as consecutive sub-slices of one array with the rest of the array as spare capacity, in this and in reverse order. "+
+			"new-hash: SRP.NewHash (random source: deterministic stream) for these passwords x salts x groups, the shared-array layouts, and for each group the v-zero-top case of the search below "+
+			"(salt1 of the search = 8 counting bytes | the 32 bytes NewHash draws): the returned salt must be salt1 | 32 bytes and the returned hash must be, as exactly 256 bytes, "+
+			"v = g^PH2(password, returned salt, salt2) mod p of the reference. "+
 			"zero-top: for each of these (group/g) and each of g_a, g_b (srp_B as received), t = g_b - k_v, s_a, k_v, v (2048-bit form) and u, x "+
 			"(256-bit form), the first case - found by a deterministic search with the reference over client secrets a = base+i, server secrets "+
 			"b = base+j or salt2 = 'c15zt-s2'+index - in which that number has a zero top byte, and (production group; thorough every group; "+
@@ -414,6 +541,23 @@ func main() {
 				c.AddInt(fmt.Sprintf("zero_top_cases_%s_%dB", zcases[i].Quantity, zcases[i].ZeroBytes), 1)
 			}
 		})
+		var nh []wNewHash
+		for _, z := range zcases {
+			if z.Quantity == "v" && z.ZeroBytes == 1 {
+				nh = append(nh, wNewHash{Password: z.Password, Salt1: strings.TrimSuffix(z.Salt1, "+newhash"), Salt2: "zt:" + strconv.Itoa(z.SaltIndex), Group: z.Group, ZeroTop: true})
+			}
+		}
+		for _, g := range groups {
+			for _, pw := range passwords {
+				for _, s := range salts {
+					nh = append(nh, wNewHash{Password: pw, Salt1: s[0], Salt2: s[1], Group: g})
+				}
+			}
+			nh = append(nh, wNewHash{Password: "ascii", Salt1: "8:count", Salt2: "16:stream:s2", Group: g, Layout: "packed"},
+				wNewHash{Password: "ascii", Salt1: "8:count", Salt2: "16:stream:s2", Group: g, Layout: "packed-rev"})
+		}
+		kit.Parallel(len(nh), workers, func(i int) { newHash.Eval(nh[i]) })
+		c.Set("new_hash_cases", int64(len(nh)))
 		if ztVacuous.Load() > 0 {
 			fmt.Fprintln(os.Stderr, "C15: INFRASTRUCTURE: zero-top witnesses without the property; no verdict")
 			os.Exit(2)
@@ -446,6 +590,14 @@ func main() {
 							cases = append(cases, wAnswer{Password: base, Salt1: s[0], Salt2: s[1], Secret: "stream256", Group: g, B: "b:stream2", BForm: "padded", VPassword: try})
 						}
 					}
+				}
+			}
+		}
+		// encodings of srp_B longer than 2048 bits and arguments that share one backing array
+		for _, s := range salts {
+			for _, g := range groups {
+				for _, x := range [][3]string{{"b:stream", "overlong1", ""}, {"raw:mid", "overlong8", ""}, {"b:stream", "padded", "packed"}, {"raw:2", "minimal", "packed"}, {"b:stream", "padded", "packed-rev"}} {
+					cases = append(cases, wAnswer{Password: "utf8", Salt1: s[0], Salt2: s[1], Secret: "stream32", Group: g, B: x[0], BForm: x[1], Layout: x[2]})
 				}
 			}
 		}
